@@ -31,6 +31,22 @@ ASSUMPTIONS = [
 
 
 MUTANTS = [
+    ("expanded file written before the keywords are removed",
+     "AegeanTools/fits_tools.py",
+     "    # don't need these any more so delete them.\n"
+     "    del header['BN_CFAC'], header['BN_NPX1'], header['BN_NPX2']\n"
+     "    del header['BN_RPX1'], header['BN_RPX2']\n"
+     "    hdulist[0].header = header\n"
+     "    if outfile is not None:\n"
+     "        hdulist.writeto(outfile, overwrite=True)\n"
+     "        logging.info(\"Wrote: {0}\".format(outfile))\n",
+     "    if outfile is not None:\n"
+     "        hdulist.writeto(outfile, overwrite=True)\n"
+     "        logging.info(\"Wrote: {0}\".format(outfile))\n"
+     "    # don't need these any more so delete them.\n"
+     "    del header['BN_CFAC'], header['BN_NPX1'], header['BN_NPX2']\n"
+     "    del header['BN_RPX1'], header['BN_RPX2']\n"
+     "    hdulist[0].header = header\n", "C15-R6"),
     ("key never written", "AegeanTools/fits_tools.py",
      "    header['BN_RPX2'] = (lcy, 'Residual on axis 2')\n", "", "C15-R1"),
     ("truthiness test", "AegeanTools/fits_tools.py",
@@ -409,6 +425,68 @@ def run(ctx):
               ok5, "_load_aux_image must load through load_image_band "
               "(transparent expansion) and compare the shape of its result",
               node=aux.node)
+    r6_written(ctx, prog)
+
+
+def r6_written(ctx, prog):
+    """the file written by compress / expand is the HDUList they return"""
+    from ..cfg import CFG
+    import networkx as nx
+    ctx.rule("C15-R6", "the optional output file of compress / expand is "
+             "written after the last modification of the data and header: "
+             "no statement reachable from writeto() changes the header "
+             "(stale BN_* keywords make the written file look compressed "
+             "and it is expanded a second time on load) or the data")
+    n = 0
+    for short in ("fits_tools.compress", "fits_tools.expand"):
+        fi = prog.func(short)
+        g = CFG(fi.node)
+        hdr = {"header"}
+        for st in walk_no_nested(fi.node):
+            if isinstance(st, ast.Assign) and isinstance(
+                    st.targets[0], ast.Name) and norm(st.value).endswith(
+                        (".header", ".data")):
+                hdr.add(st.targets[0].id)
+        writes = [st for st in walk_no_nested(fi.node)
+                  if isinstance(st, ast.Expr) and
+                  isinstance(st.value, ast.Call) and
+                  isinstance(st.value.func, ast.Attribute) and
+                  st.value.func.attr in ("writeto", "write_fits")]
+
+        def mutates(st):
+            tg = []
+            if isinstance(st, ast.Assign):
+                tg = st.targets
+            elif isinstance(st, ast.AugAssign):
+                tg = [st.target]
+            elif isinstance(st, ast.Delete):
+                tg = st.targets
+            for t in tg:
+                b = t
+                while isinstance(b, ast.Subscript):
+                    b = b.value
+                if b is not t and isinstance(b, ast.Name) and b.id in hdr:
+                    return True
+                if isinstance(b, ast.Attribute) and b.attr in ("data",
+                                                               "header"):
+                    return True
+            return False
+        muts = [st for st in walk_no_nested(fi.node) if mutates(st)]
+        for w in writes:
+            n += 1
+            after = set()
+            for wn in g.nodes_for_stmt(w):
+                after |= nx.descendants(g.g, wn)
+            late = [m for m in muts
+                    if set(g.nodes_for_stmt(m)) & after]
+            ctx.check("C15-R6", fi, "nothing modified after " + norm(w, 50),
+                      not late, "`%s` runs after the file has been written: "
+                      "the file on disk differs from the returned HDUList "
+                      "(e.g. it keeps the BN_* keywords although it holds "
+                      "full-size data, so loading it expands it again)" %
+                      (norm(late[0], 60) if late else ""),
+                      node=late[0] if late else w)
+    ctx.floor("C15-R6", n, 2, "output-file writes in compress / expand")
 
 
 def r5_axes(ctx, prog, comp):
